@@ -113,6 +113,12 @@ func (m *MMap) Size() (int64, error) {
 	return m.virtualSize, nil
 }
 
+// Truncate 仅调整逻辑大小, 物理文件在关闭时收缩
+func (m *MMap) Truncate(size int64) error {
+	m.virtualSize = size
+	return nil
+}
+
 func (m *MMap) ResetFileSize() error {
 	vhook.IO("truncate", m.file.Name(), m.virtualSize, 0, nil)
 	// 文件收缩后原映射区域超出文件末尾的部分不可再访问, 需解除映射
